@@ -59,7 +59,7 @@ def run(ck):
     c15.run(RuleView(ck, {"C15.3": "C01.11", "C15.4": "C01.12", "C15.8": "C01.13"}))
     ck.clause("C01.10", "a joined record is made only of segments that were checked against each other (the join bypasses the "
                         "chainer: a segment carried over from one part can cross the other part) (as C08.6)")
-    c08._joined_row(RuleView(ck, {"C08.6": "C01.10"}))
+    c08._joined_row(RuleView(ck, {"C08.6": "C01.10"}, only_constructs=(":segments", ":only-resolved", ":order")))
     no_empty_rows(ck)
     resolver_used(ck)
     pairwise_pass(ck, "C01.3")
